@@ -4,7 +4,7 @@ import re
 
 from ..common import Check, coq_eval, coq_codes, harness
 from ..translate import gen_sites
-from .c13_templates import TEMPLATES, parse_template
+from .c13_templates import TEMPLATES, parse_template, interp_templates
 
 TRUSTED = [
     "Coq 8.16.1 kernel (coqc, vm_compute); no axioms: every theorem is 'Closed under the global context'",
@@ -100,10 +100,14 @@ def gen_prefix_text(rng, cls):
         return [seg([1, 2], rng.randint(1, 3)) + rng.choice(EXOTIC) + seg([1, 3], rng.randint(0, 3))], "\n"
     if cls == "long":
         return [seg([2, 3, 4], rng.randint(24, 60))], "\n"
+    if cls == "huge":
+        # a long file: thousands of characters of commentary before the statement in error
+        kinds = rng.choice([[1], [1], [1, 2, 3, 4]])
+        return [seg(kinds, rng.randint(30, 70)) for _ in range(rng.randint(60, 160))], "\n"
     raise ValueError(cls)
 
 
-PREFIX_CLASSES = ["none", "ascii", "b2", "b3", "b4", "mixed", "lines", "crlf", "cr", "exotic", "long"]
+PREFIX_CLASSES = ["none", "ascii", "b2", "b3", "b4", "mixed", "lines", "crlf", "cr", "exotic", "long", "huge"]
 
 
 def place(rng, tpl, segs, nl, how):
@@ -168,6 +172,9 @@ def check_message(e, files_by_id, want_tok=None, want_off=None):
     sid = str(sp["source_id"])
     if sid not in files_by_id:
         bad.append(("span-names-no-file", "source_id %s" % sid))
+        # a span that belongs to no file of the tree must not be given a position or an excerpt of some other file
+        if e.get("location") is not None or e.get("display") is not None:
+            bad.append(("location-for-foreign-span", "location %s for a span of source %s, which is not in the tree" % (e.get("location"), sid)))
         return bad, info
     s = files_by_id[sid]
     a, b = sp["start"], sp["end"]
@@ -213,7 +220,7 @@ def run():
     pr = ck.prove()
     model_ok = True     # Model/Span.vo does not depend on Gen/: the model stays executable when the translator fails closed
     rng = ck.rng
-    tpls = [parse_template(t) for t in TEMPLATES]
+    tpls = [parse_template(t) for t in TEMPLATES] + [parse_template(t) for t in interp_templates(rng, ck.n(70, 400))]
     ck.coverage["templates"] = {c: sum(1 for t in tpls if t["cls"] == c) for c in ("lexical", "syntactic", "resolution", "type", "sql")}
 
     # ---------------------------------------------------------------- 1. Span.v: lines / get_offset_line vs ariadne
@@ -259,7 +266,12 @@ def run():
     per = ck.n(1, 3)
     for ti, t in enumerate(tpls):
         for pcls in PREFIX_CLASSES:
-            for _ in range(per if pcls != "none" else 1):
+            if t.get("gen") and pcls not in ("none", "ascii", "b3", "lines"):
+                continue
+            if t.get("gen"):
+                sh = t["shape"]
+                ck.stat("oracle", "interp:quotes=%d,esc-before=%s,esc-after=%s" % (sh["quotes"], min(sh["esc_before"], 1), min(sh["esc_after"], 2)))
+            for _ in range((per if pcls not in ("none", "huge") else 1)):
                 segs, nl = gen_prefix_text(rng, pcls)
                 for how in (hows if segs else ["comment"]):
                     if t.get("header") and how != "comment":
@@ -314,8 +326,9 @@ def run():
                 return "F9-byte-spans-read-as-chars"
             return None
         clauses = set(case.get("clauses", []))
-        if clauses == {"span-names-no-file"} or (t.get("known") == "std-span" and "span-names-no-file" in clauses):
-            return "C13-N2-span-into-std" if t.get("known") == "std-span" else None
+        if "span-names-no-file" in clauses:
+            # narrow: the message has the foreign span and NOTHING else wrong (in particular no location / excerpt)
+            return "C13-N2-span-into-std" if (clauses == {"span-names-no-file"} and t.get("known") == "std-span") else None
         if t.get("known") == "interp-rebase" and clauses <= {"slice-not-found-token", "span-not-offending-token", "location-not-position", "display-misses-line", "out-of-bounds", "no-location", "no-display"}:
             # either the pure rebasing defect (ASCII) or rebasing + F9
             return "C13-N1-interp-span-rebase"
